@@ -14,28 +14,84 @@ TABLE = {
             "threshold, 11 configurations incl. custom gamma callbacks) is run through the real rate() for all five models "
             "and each posterior must lie in the reference interval (1e-9 of scale; TM asymptotic branches: C17's envelope). "
             "Exhaustive within the stated bounds, not a proof for the continuum.", "§6 C01, §5",
-            "reference model vf/ref.py + mpmath (40 digits) + CPython float arithmetic"),
+            "reference model vf/ref.py + mpmath (40 digits) + CPython float arithmetic", "E1"),
+    "C02": ("exploration", "bounded-exhaustive enumeration of shapes x weak orders x encodings with per-slot identity and reference oracle",
+            "All team shapes up to 4 (thorough 5) teams of 1..3 players plus three 8-team shapes, every slot with a distinct value, name and id, "
+            "every weak order x 5 encodings x 3 limit_sigma modes: nesting, id/name per slot, posterior of THAT player (reference), and the "
+            "all-untouched-or-all-updated clause for the passed objects.", "§6 C02", "reference model as in C01", "E1"),
     "C03": ("exploration", "bounded-exhaustive enumeration of every encoding of every weak order on the real code, bit-exact metamorphic comparison",
             "For every weak order of up to 4 (quick) / 5 (thorough) teams, ~60-90 encodings (ints, floats, mixed typing patterns, negatives, "
             "bools, signed zeros, infinities, huge ints, the same as scores, omitted) are run through the real rate() of all five models and "
             "must give bit-identical posteriors, the canonical one inside the reference interval.", "§6 C03",
-            "reference model for the canonical encoding; IEEE bit patterns for identity"),
+            "reference model for the canonical encoding; IEEE bit patterns for identity", "E1"),
+    "C04": ("exploration", "bounded-exhaustive metamorphic comparison under all n! team permutations / generating transpositions and all within-team permutations",
+            "Every game x weak order of T3, T4|V4 under all n! listings, T4 under adjacent transpositions, P2/P3 under every player permutation "
+            "(thorough: up to 8 teams through generators); partial-pairing classes restricted to the admissible permutations the statement names.",
+            "§6 C04", "tolerance R4; TM: plus reference-interval width", "E1"),
+    "C05": ("exploration", "bounded-exhaustive enumeration; all outcomes of one game evaluated side by side and compared clause by clause",
+            "Every clause of the statement (sole first/last, same direction and proportional shares, loss<=draw<=win, prior between, draw vs. "
+            "strength, all C(n,2) exchanges of every strict order, identical teams ordered by place) on S2, P2, P3, T3, T4 and six further configs.",
+            "§6 C05", "tolerance R4", "E1"),
+    "C06": ("model_checking", "one-step invariant from every alphabet state + explicit-state BFS over call histories + exhaustive narrow-deep history search",
+            "I3 (sigma finite, >0, <= sqrt(prior^2+tau_eff^2), <= prior under limit_sigma) is checked from EVERY alphabet state incl. the per-call "
+            "option matrix (inductive step), on every transition of the E2 history search, and along all 3^8 (thorough 3^12) histories of a "
+            "three-operation alphabet with the cumulative bound.", "§6 C06, §3-E2", "4-ulp slack on the inflation bound", "E1+E2"),
+    "C07": ("exploration", "bounded-exhaustive enumeration with an invariant on each result",
+            "Precision-weighted mu change summed over teams is zero (explicit rounding bound; TM: 2*kappa/c^2 per paired tie) for every game x every "
+            "weak order incl. all multi-way ties of S2, P2, P3, T3, T4 and 7 further configs; equal-variance corollary on its sub-space.",
+            "§6 C07", "rounding bound of R4", "E1"),
+    "C08": ("exploration", "bounded-exhaustive enumeration of the corner space (extreme values, sizes, configurations) with a totality oracle",
+            "All 24^2 combinations of extreme (mu, sigma, size) for two teams in games of 2, 3 and 8 teams, every outcome / tie pattern, 18 (thorough 36) "
+            "configurations of beta, tau, kappa; rate and the three predictors of all five classes must return finite numbers without exception.",
+            "§6 C08", "watchdog 30 s per call", "E1"),
+    "C09": ("exploration", "bounded-exhaustive enumeration; invariant on each result + metamorphic comparison under all permutations and all single-player increments",
+            "predict_win: length, range, sum, identical teams, exact 1/2, all n! permutations (n<=4) / transpositions, every within-team reversal and "
+            "EVERY player slot x 3 mu increments, on the prediction space G for all five classes.", "§6 C09", "1e-12 slack", "E1"),
+    "C10": ("exploration", "bounded-exhaustive enumeration; range invariant, permutation metamorphic relation, exhaustive gap ladders and equalised twins",
+            "predict_draw in [0,1] on all of G plus sigma->0 / 16-player corners; invariant under all team (n<=4: n!) and player permutations; "
+            "non-increasing along every gap ladder of S2 (both signs, sigma incl. 0); equalised twin never lower.", "§6 C10", "1e-12 slack", "E1"),
+    "C11": ("exploration", "bounded-exhaustive enumeration with an invariant on each result",
+            "predict_rank on all of G (value products contain every pattern of exactly identical teams) plus 8-team tie patterns: pairs in input "
+            "order, ranges, strict/equal order consistency on the returned floats, best has rank 1, sum with predict_draw = 1 for n>=3.",
+            "§6 C11", "order clauses exact; sum 1e-12*n", "E1"),
+    "C12": ("exploration", "bounded-exhaustive enumeration vs. independent 40-digit evaluation of the documented closed forms",
+            "All three predictors of all five classes on every game of G under four configurations, compared to mpmath closed forms at 1e-9 absolute.",
+            "§6 C12", "mpmath erfc/erfinv", "E1"),
+    "C13": ("fault_enumeration", "fault grammar injected at every position of valid calls + rejected calls as self-loops in the E2 history search",
+            "~4000 malformed calls per class (13 wrong containers for teams, 8 per team position, 14 per player position incl. foreign ratings, 11 selector "
+            "containers/lengths, 11 element faults per position, both selectors) + 16 well-formed typings: exception class, no return, deep snapshot of "
+            "every reachable rating, the containers and the model unchanged; E2/I4 in every state reachable by one rate call.", "§6 C13, §3-E2",
+            "falsy non-list selectors count as not given; Decimal/Fraction/complex may be accepted or cleanly rejected", "E1+E2"),
     "C14": ("model_checking", "explicit-state BFS over call histories on the real code + stateless schedule exploration with iterative preemption bounding + hash-seed alphabet",
             "E2: every history of depth <= 2 (thorough: 3) over a 256-call alphabet is executed on the real code for 5 classes x 4 model "
             "configs; every transition is checked for an unchanged model (I1) and bit-identity with the same call on fresh objects (I2). "
             "E3: every schedule with <= 1 (thorough: 2) preemptions of six 2-3-thread harnesses at line and opcode granularity; each thread "
             "must return exactly its solo result.  The exploration is repeated under 4 hash seeds with different rating ids and must "
             "produce one digest.", "§3-E2, §3-E3, §6 C14",
-            "CPython GIL atomicity of C-level calls; sys.settrace line/opcode events as scheduling points; uuid4 replaced by a counter"),
+            "CPython GIL atomicity of C-level calls; sys.settrace line/opcode events as scheduling points; uuid4 replaced by a counter", "E2+E3"),
     "C15": ("exploration", "bounded-exhaustive metamorphic comparison of two real executions (per-call option vs. model-level option)",
             "On every game of S2 and T3 (sigma alphabet extended so tau and the clamp are visible) x every weak order, 24 comparisons "
             "Model(s').rate(g, option) == Model(option).rate(g) incl. tau=0 / 0.0 / 1e-300, explicit None and mixed options, "
-            "for all five models; 1e-12 relative.", "§6 C15", "none beyond CPython floats (both sides are the real code)"),
+            "for all five models; 1e-12 relative.", "§6 C15", "none beyond CPython floats (both sides are the real code)", "E1"),
+    "C16": ("exploration", "bounded-exhaustive metamorphic comparison under rescaling and shifting of the skill scale",
+            "Every game x weak order of S2, P2, P3, T3, T4|V4 rescaled by 4 factors (PL, BT) and shifted by 3 offsets (all five, equal team sizes); "
+            "predictions on G2, G3, G4 under the same transformations.", "§6 C16", "R4; TM shift: reference-interval width", "E1"),
     "C17": ("exploration", "exhaustive grid sweep (x,t) incl. ulp neighbourhoods of all branch thresholds vs. 40-digit mpmath",
             "v, w, vt, wt on the full product of a dense x grid (plus threshold windows and ulp neighbourhoods) and 70 t values, "
             "and phi_major on [-37.5, 38], each point compared with the mathematical definition at 40 digits; the statement's "
             "clauses are applied verbatim.", "§3-E4, §6 C17",
-            "mpmath erfc/exp (cross-checked against a decimal continued fraction in-run)"),
+            "mpmath erfc/exp (cross-checked against a decimal continued fraction in-run)", "E4"),
+    "C18": ("exploration", "exhaustive enumeration of all ordered pairs of a value alphabet x operators, foreign operands and 4-subsets",
+            "26^2 pairs x 6 operators, ordinal(z) for 7 z values, 13 foreign operand types on both sides, sorted() of all 14950 4-subsets in two "
+            "listing orders, for the five rating classes.", "§6 C18", "ordinal compared to mu - z*sigma within 2 ulp", "E1"),
+    "C19": ("exploration", "differential comparison of the five model classes as five programs over the exhaustive spaces of C09-C13/C18",
+            "Predictions on all of G, the complete C13 fault grammar (decision + exception class), the C18 alphabet (compare/hash/copy vectors), "
+            "all public signatures, and BT-part vs BT-full on all 2-team games of S2/P2 under 5 configs.", "§6 C19", "1e-12 on numbers, exact otherwise", "E1"),
+    "C20": ("model_checking", "construction/copy alphabet enumeration + rebuilt-vs-original differential + restore/deepcopy transitions in the E2 history search",
+            "Every (mu, sigma) x name x omission pattern through rating/create_rating on default and custom models; 10^4 ids; deepcopy of ratings, teams, "
+            "leagues; every game of T3|V6 and P3 rated/predicted with original, create_rating-rebuilt, rating-rebuilt and deep-copied players must agree "
+            "bit for bit; E2: restore/copy transitions interleaved with every operation to depth 2 (thorough 3), I5 and I2.", "§6 C20, §3-E2",
+            "name '' == None", "E1+E2"),
 }
 
 ENGINES = [
@@ -60,14 +116,14 @@ def build():
         if not have:
             na.append({"property_id": pid, "reason": "check not built yet in this round (planned in DESIGN.md §6); not claimed until it runs"})
             continue
-        level, technique, text, ref_, trusted = TABLE[pid]
+        level, technique, text, ref_, trusted, engine = TABLE[pid]
         checks.append({
             "property_id": pid,
             "quick_cmd": f"bin/check {pid} --tier quick",
             "thorough_cmd": f"bin/check {pid} --tier thorough",
             "evidence_file": f"/verif/evidence/{pid}.json",
             "replay_cmd_template": f"bin/check {pid} --replay {{path}}",
-            "engine": {"C17": "E4", "C14": "E2+E3"}.get(pid, "E1"),
+            "engine": engine,
             "level_claimed": {"category": level, "text": text, "design_ref": ref_},
             "level_note": trusted,
             "technique": technique,
